@@ -358,7 +358,26 @@ def python_frame_values(ctx: Ctx, py: PyProgram) -> None:
         if not ok:
             ctx.violation("C12.1/latch-arms", key_of(EMU, "PCE500Emulator._tick_timers", f"{src} latch without arming the dispatcher"),
                           f"the {src} status bit is latched in ISR, but `_irq_pending = True` for it is under a stricter condition: a request latched while masked is not delivered once the program unmasks it", f"{EMU}:{c.lineno}")
-    ctx.instance("C12.3/python-frame-values", "saved IMR is the unmasked IMR; leaving interrupt context requires RETI; every timer ISR latch arms the dispatcher", n, 5)
+    # ... and the same for the ON key: wherever host code latches ONKI through _set_isr_bits, `_irq_pending = True` follows under no
+    # stricter condition (a press inside a handler must still be delivered after RETI)
+    ecls = py.need_cls(py.module(EMU), "PCE500Emulator")
+    for mname, m in ecls.methods.items():
+        lat = [c for c in ast.walk(m) if py_is_call(c, "self._set_isr_bits") and c.args and "ONK" in unparse(c.args[0])]
+        if not lat:
+            continue
+        gm = cfgmod.build_py(m, mname)
+        arms_ = [a for a in ast.walk(m) if (isinstance(a, ast.Assign) and any(attr_chain(t) == "self._irq_pending" for t in a.targets) and isinstance(a.value, ast.Constant) and a.value.value is True)
+                 or (isinstance(a, ast.Expr) and isinstance(a.value, ast.Call) and unparse(a.value.func) == "setattr" and len(a.value.args) == 3 and unparse(a.value.args[0]) == "self"
+                     and isinstance(a.value.args[1], ast.Constant) and a.value.args[1].value == "_irq_pending" and isinstance(a.value.args[2], ast.Constant) and a.value.args[2].value is True)]
+        for c in lat:
+            n += 1
+            lg = {(unparse(x), pol) for x, pol, _o in gm.guards_of(gm.node_of(c)) if isinstance(x, ast.AST)}
+            ok = any(not ({(unparse(x), pol) for x, pol, _o in gm.guards_of(gm.node_of(a)) if isinstance(x, ast.AST)} - lg) for a in arms_)
+            if not ok:
+                ctx.violation("C12.1/latch-arms", key_of(EMU, f"PCE500Emulator.{mname}", "ONK latch without arming the dispatcher"),
+                              f"{mname} latches ISR.ONKI but sets `_irq_pending = True` only under a stricter condition (or not at all): an ON-key press while a handler runs stays in ISR, enabled and unmasked, and is "
+                              "never taken", f"{EMU}:{c.lineno}")
+    ctx.instance("C12.3/python-frame-values", "saved IMR is the unmasked IMR; leaving interrupt context requires RETI; every timer / ON-key ISR latch arms the dispatcher", n, 6)
 
 
 # ---------------------------------------------------------------------------
